@@ -48,12 +48,14 @@ func init() {
 	gwReg("c12", gw.RunC12)
 	gwReg("c11", gw.RunC11)
 	gwReg("c10", gw.RunC10)
+	gwReg("c10p", gw.RunC10)
 	gwReg("c16", gw.RunC16)
 	gwReg("c05h", gw.RunC05HTTP)
 	gwReg("c06h", gw.RunC06HTTP)
 	gwReg("c14h", gw.RunC14HTTP)
 	register("gw", "smoke", true, func(t *testing.T, r *sim.Run) { gw.PreBubble(); inBubble(t, true, func() { gw.RunSmoke(r) }) })
 	register("rl", "c07", true, func(t *testing.T, r *sim.Run) { inBubble(t, true, func() { rl.RunC07(r) }) })
+	register("rl", "c09t", true, func(t *testing.T, r *sim.Run) { inBubble(t, true, func() { rl.RunC09ITB(r) }) })
 	register("rl", "c09i", true, func(t *testing.T, r *sim.Run) { inBubble(t, true, func() { rl.RunC09I(r) }) })
 	register("rl", "c19h", true, func(t *testing.T, r *sim.Run) { inBubble(t, true, func() { rl.RunC19H(r) }) })
 	register("rl", "c16l", true, func(t *testing.T, r *sim.Run) { inBubble(t, true, func() { rl.RunC16L(r) }) })
